@@ -120,12 +120,14 @@ CHECKS = {
         watch=CLAUSES,
         cfg_extra="INVARIANT RoleTracks\n",
         assumptions=[
-            "virtual time: controller and monitor run inside testing/synctest bubbles; one quantum = 1 s; every harness action happens at 0.5 s + k quanta so the controller's own 1 s evaluation tick never coincides with an action or a timer",
+            "virtual time: controller and monitor run inside testing/synctest bubbles; one quantum = 1 s, durations are reported to the specification in ms; every harness action happens at 0.5 s + k quanta so the controller's own 1 s evaluation tick never coincides with an action or a timer; a configured grace period of g quanta is g x 1.1 s and an operator command in a grace system is issued 1 ms after the instant, so that sleepers never wake at the instant a timer fires or another sleeper wakes (the runtime orders same-instant events randomly; bundles are bit-identical across runs)",
             "health events come from the real HealthMonitor: each probe is one CheckNow() answered by an in-process http.RoundTripper (http.DefaultTransport replaced in the test binary); thresholds 1/1 and 2/2",
-            "fingerprint = all fields of controller+monitor by reflection (statistics counters skipped) + pending timers (Stop()/Reset() to the same deadline) + goroutines held at the verif gate + goroutines inside a grace period; adequacy re-checked on 25 re-reached nodes per system",
+            "fingerprint = all fields of controller+monitor by reflection (statistics counters skipped, timer generations rendered as current/stale) + pending timers (Stop()/Reset() to the same deadline) + goroutines held at the verif gate + executions of executeFailover/executeFailback under way (entry/exit calls of the gate hook); adequacy re-checked on 25 re-reached nodes per system",
             "promotions after an accepted ForceFailover are exempt from the delay clauses until the role changes or the callback refuses (weakest reading); ForceFailback never executing a failback is not a violation of any sentence",
             "timer-vs-event races are explored only at the two gate points (top of executeFailover/executeFailback); at most two timer goroutines are held at a time",
             "NoStuckInProgress is decided by a probe: no input for 20x the sum of all configured delays, state still in_progress",
+            "a step in which callbacks for both roles succeed may hide a promotion undone within the step; the completed-event count is then only required to lie between the net change and the number of successful 'active' callbacks",
+            "go1.25.0 runtime bug (unlocked fixalloc in getOrSetBubbleSpecial) worked around in the harness: FailoverController.Start is serialised and the collector runs only at those points",
             "the role-change callback is always installed (cmd/bng installs none; without one the callback clause is vacuous)",
         ],
         explanation="Failover.tla (contract) is model-checked to coincide with the property stated over absolute time (FailoverDesign); FailoverShape models the code's critical "
